@@ -112,6 +112,16 @@ class Oracle:
             return bool(p and p.ack_delivered and now >= p.ack_time + lim)
         return False
 
+    def result_in_flight_from_terminated_worker(self, mj):
+        """discriminator of the open finding D25"""
+        for p in mj.parts.values():
+            if p.owner is None or p.ready_delivered or not p.finished:
+                continue
+            proc = self.sim.by_pid[p.owner]
+            if getattr(proc, '_job_terminated', False):
+                return True
+        return False
+
     def hard_limit(self, mj):
         if mj.kind != 'apply':
             return None
@@ -137,6 +147,13 @@ class Oracle:
             return
         _, tname, targs = snap
         if tname in simpool.POOL_MADE:
+            if tname == 'Terminated' and not self.justify_pool_failure(mj, tname) \
+                    and self.result_in_flight_from_terminated_worker(mj):
+                raise Violation(
+                    'C01/terminated-with-result-in-flight',
+                    'job %d (%s) failed with Terminated%s: its worker had finished '
+                    'it (result in flight) and was then stopped by terminate_job() '
+                    'while running another job' % (mj.idx, mj.kind, targs))
             if not self.justify_pool_failure(mj, tname):
                 raise Violation(
                     'C01/own-outcome/%s/unjustified-%s' % (mj.kind, tname),
